@@ -470,6 +470,26 @@ theorem retransmissions_identical (m : Mrp) (r : Retrans) (hdrAck sai : Option N
     (Or.inl rfl) hdis p hp
   exact this
 
+/-- … with the ORIGINAL transmission in the trace: the first `pre_send` of a reliable message on an
+exchange with nothing pending succeeds and writes `(c, a)`; every later retransmission — under every
+disciplined interleaving with received messages — writes exactly `(c, a)` again. -/
+theorem original_and_retransmissions_identical (m : Mrp) (c : Nat) (hdrAck sai : Option Nat) (evs : List MEv)
+    (hm : m.retrans = none) (hdis : ∀ e ∈ evs, e.disciplined = true) :
+    (m.preSend c true hdrAck sai).2.2 = none ∧
+    ∀ p ∈ runM hdrAck sai (m.preSend c true hdrAck sai).1 evs, p = (c, (m.preSend c true hdrAck sai).2.1) := by
+  have horig := preSend_retrans_origin m c true hdrAck sai
+  simp only at horig
+  have hok := horig.2.1 hm
+  refine ⟨hok, ?_⟩
+  have hrt : (m.preSend c true hdrAck sai).1.retrans = some (Retrans.new sai c) := by
+    unfold Mrp.preSend; simp [hm]
+  intro p hp
+  have := retransmissions_identical _ _ hdrAck sai evs hrt hdis p hp
+  rw [this, preSend_outAck]
+  unfold outAckOf
+  rw [preSend_ackCtr m c true hdrAck sai hok]
+  rfl
+
 /-- non-vacuity of the hypotheses, and the retransmission really happens -/
 example : runM none none { retrans := some { base := 300, ctr := 9, count := 0 }, ack := some { ctr := 4, acked := true } }
     [.retransmit, .recv 5 (some 3) true 0, .retransmit, .recv 6 none false 0, .retransmit]
